@@ -7,6 +7,8 @@ import KyupyVerif.Proofs.StripLinkMem
 import KyupyVerif.Gen.Tables
 import KyupyVerif.Proofs.CycleNet
 import KyupyVerif.Proofs.CycleMem
+import KyupyVerif.Proofs.CycleRel
+import KyupyVerif.Proofs.CycleStrip
 /-! # C01 — 2-valued logic simulation computes the netlist's Boolean function
 
 Generated from the working tree: `Gen.sem2n` (what `logic_sim._prop_cpu` computes for an op code),
@@ -361,6 +363,25 @@ example : demoSeqMap.ops = genOps Gen.kindPrefixes demoSeq [0, 2, 1, 3, 4, 6, 5]
     orderOKB demoSeq [0, 2, 1, 3, 4, 6, 5] = true ∧ Cycle.stateOutsB demoSeq = true ∧ Cycle.zeroCapB demoSeqMap = true := by
   decide +kernel
 
+open KV.Cycle in
+/-- (10) **`cycle(k)` does not depend on `strip_forks`** (C06 through the clock loop). For every well-formed netlist, topological
+    order that respects the fork conventions (`forksOKB`, C06) and contains the driver of every captured line (`capDriversB`;
+    `topological_order()` lists every node), any value domain and code-indexed op semantics in which `BUF1` returns its first
+    operand (the generated 2-, 4-, 8-valued dispatchers: C06 `buf1_first_operand`), any `merge`, any `k`: the stripped simulator
+    (rows without forks, operands and captures resolved to the stems) and the un-stripped one leave the same `s[0]`, `s[1]`.
+    The two memories differ on the branch signals; both hypotheses are evaluated on every generated circuit. -/
+theorem cycle_strip_irrelevant {α} (tbl : List PrefixRow) (net : Net) (order : List Nat)
+    (hwf : net.wfB = true) (ho : orderOKB net order = true) (hf : forksOKB net order = true)
+    (hcov : capDriversB net order = true)
+    (f : Nat → List α → α) (dflt : α) (hbuf : ∀ xs, f BUF1 xs = xs.getD 0 dflt) (merge : α → α → α) (d : α)
+    (k : Nat) (st : St α) (h0 : st.s.s0.length = net.sNodes.length) (h1 : st.s.s1.length = net.sNodes.length) :
+    (cycleK (fun op => f op.code) (sigOps tbl net order true) (tabsOf net true) merge d k st).s =
+      (cycleK (fun op => f op.code) (sigOps tbl net order false) (tabsOf net false) merge d k st).s :=
+  cycleK_strip tbl hwf ho hf hcov f dflt hbuf merge d k st st rfl h0 h1 (Agree.refl _ _ _)
+
+example : forksOKB demoSeq [0, 2, 1, 3, 4, 6, 5] = true ∧ Cycle.capDriversB demoSeq [0, 2, 1, 3, 4, 6, 5] = true ∧
+    (∀ xs, semL2n BUF1 xs = xs.getD 0 false) := ⟨by decide +kernel, by decide +kernel, semL2n_buf1⟩
+
 /-- (5) lane-wise for every lane count: lane `k` of the bit-parallel result is the per-lane function -/
 theorem lanewise2 (w k : Nat) (hk : k < w) (code : Nat) (a b c d : BitVec w) :
     (Gen.sem2n code a b c d).getLsbD k = Gen.sem2n code (a.getLsbD k) (b.getLsbD k) (c.getLsbD k) (d.getLsbD k) :=
@@ -383,6 +404,32 @@ theorem sim2_lanes (w k : Nat) (hk : k < w) (ops : List Op) (env : Nat → BitVe
   have h0 := hxy.getD 0 _ _ hd; have h1 := hxy.getD 1 _ _ hd
   have h2 := hxy.getD 2 _ _ hd; have h3 := hxy.getD 3 _ _ hd
   simp only [arg]; rw [h0, h1, h2, h3]
+
+open KV.Cycle in
+/-- (9) **lanes through the clock loop**: `cycle(k)` of the bit-parallel simulator (one `BitVec w` per signal / `s` entry, any
+    batch size `w`) shows in lane `k` exactly `cycle(k)` of the one-lane simulator on lane `k` of the initial state — for every op
+    program, index tables and number of cycles: lanes stay independent over any number of cycles, padding lanes never leak.
+    (`Cycle.cycleK_rel`: every relation the ops and `merge` preserve is preserved by the loop.) -/
+theorem cycle_lanes (w k : Nat) (hk : k < w) (ops : List Op) (T : Tabs) (n : Nat) (st : St (BitVec w)) :
+    let r := cycleK (fun op => semLw w op.code) ops T mergeCopy 0 n st
+    let rb := cycleK (fun op => semL2n op.code) ops T mergeCopy false n
+      ⟨fun x => (st.env x).getLsbD k, ⟨st.s.s0.map (·.getLsbD k), st.s.s1.map (·.getLsbD k)⟩⟩
+    r.s.s0.map (·.getLsbD k) = rb.s.s0 ∧ r.s.s1.map (·.getLsbD k) = rb.s.s1 := by
+  intro r rb
+  have hd : (0 : BitVec w).getLsbD k = false := by simp
+  have hop : ∀ op ∈ ops, ∀ (xs : List (BitVec w)) (ys : List Bool), All2 (fun v b => v.getLsbD k = b) xs ys →
+      (semLw w op.code xs).getLsbD k = semL2n op.code ys := by
+    intro op _ xs ys hxy
+    unfold semLw semL2n
+    rw [lanewise2 w k hk]
+    have h0 := hxy.getD 0 _ _ hd; have h1 := hxy.getD 1 _ _ hd
+    have h2 := hxy.getD 2 _ _ hd; have h3 := hxy.getD 3 _ _ hd
+    simp only [arg]; rw [h0, h1, h2, h3]
+  have h := cycleK_rel (fun (v : BitVec w) (b : Bool) => v.getLsbD k = b) (fun op => semLw w op.code) (fun op => semL2n op.code)
+    ops hop T mergeCopy mergeCopy (fun _ _ _ _ _ h => h) 0 false hd n st
+    ⟨fun x => (st.env x).getLsbD k, ⟨st.s.s0.map (·.getLsbD k), st.s.s1.map (·.getLsbD k)⟩⟩
+    ⟨fun _ => rfl, All2.of_map _ _, All2.of_map _ _⟩
+  exact ⟨h.s0.map_eq, h.s1.map_eq⟩
 
 /-- non-vacuity of (4): a two-op program -/
 example : exec semL2n [⟨34952, 10, [0, 1, 9, 9]⟩, ⟨21845, 11, [10, 9, 9, 9]⟩] (fun l => l == 0 || l == 1) 11 = false := by
